@@ -1042,19 +1042,12 @@ impl GlobalInferenceCtx<'_> {
                     // the new type *does* fit into the old type.
                     // because of that, we're not gonna panic and we're not gonna replace the type
                     //
-                    // we only panic just in case the `reinfer_expr` logic is bad and we get
-                    // something completely weird.
-                    if new_ty.is_weak_replaceable_by(&previous_ty) {
-                        return false;
-                    }
-
-                    panic!(
-                        "{} #{} : `{}` is not weak replaceable by `{}`",
-                        ctx.loc.debug(ctx.interner),
-                        expr.into_raw(),
-                        previous_ty.debug(ctx.interner, true),
-                        new_ty.debug(ctx.interner, true)
-                    );
+                    //
+                    // if the new type is something else entirely (e.g. the previous type is the
+                    // common type of an expected type and a mismatching value, or re-inference
+                    // only got `<unknown>`), the previous type is the one `infer_expr` checked,
+                    // so it is kept and any mismatch is reported by the caller as usual.
+                    return false;
                 }
 
                 // println!(
